@@ -211,7 +211,41 @@ def main_wrapper(run, pid: str, argv: list[str]) -> int:
     except MachineryError as e:
         print(f"MACHINERY-FAILURE property={pid}: {e}")
         return 2
-    except Exception:
+    except Exception as e:
         traceback.print_exc()
+        site = _anchored_raise(e, pid)
+        if site is not None:
+            # the code the property is anchored in raised inside an operation this check drives - on the unchanged tree it never
+            # does (the check completes); the operation's outcome is "raised", which no property predicate of this check allows
+            rel, func, line, text = site
+            ctx.violation({"clause": f"{pid}_AnchoredCodeRaised", "where": f"{rel}:{func}", "exc": type(e).__name__},
+                          f"{pid}_AnchoredCodeRaised: {text} raised in {rel}:{line} ({func}) during an operation the check drives; "
+                          "the check could not go on", {"traceback": traceback.format_exc()[-4000:]})
+            return ctx.finish(rule="stopped by an exception raised in the property's anchored code")
         print(f"MACHINERY-FAILURE property={pid}: harness exception")
         return 2
+
+
+def _anchored_raise(exc, pid):
+    """(relative file, function, line, text) of the innermost frame of the innermost cause, if that frame lies in one of the
+    files the property is anchored in (properties.jsonl anchors.files) - else None."""
+    try:
+        props = [json.loads(l) for l in open(os.path.join(os.path.dirname(os.path.dirname(os.path.abspath(__file__))), "properties.jsonl")) if l.strip()]
+        files = set(next(p for p in props if p["id"] == pid)["anchors"]["files"])
+        root = exc
+        while root.__cause__ is not None or (root.__context__ is not None and not root.__suppress_context__):
+            root = root.__cause__ or root.__context__
+        tb = traceback.extract_tb(root.__traceback__)
+        if not tb:
+            return None
+        last = tb[-1]
+        repo = os.path.realpath(REPO)
+        fn = os.path.realpath(last.filename)
+        if not fn.startswith(repo + os.sep):
+            return None
+        rel = os.path.relpath(fn, repo)
+        if rel not in files:
+            return None
+        return rel, last.name, last.lineno, f"{type(root).__name__}: {root}"[:200]
+    except Exception:  # noqa: BLE001
+        return None
